@@ -324,7 +324,13 @@ impl TableBootstrapInner {
         let mut last_send_error = None;
         let mut count = 0;
 
-        for addr in router_addresses.iter().chain(self.starting_nodes.iter()) {
+        // A contact given both as a router and as a starting node is contacted only once: all the
+        // requests of this round share one transaction id and the socket tracks pending requests
+        // by (address, transaction id).
+        for addr in router_addresses
+            .iter()
+            .chain(self.starting_nodes.difference(router_addresses))
+        {
             // Throttle sending if there is too many initial contacts
             if count > PINGS_PER_BUCKET {
                 time::sleep(NODE_TIMEOUT.max(Self::nat_friendly_send_duration())).await;
